@@ -22,17 +22,18 @@ import (
 //	refuse  make the next N reconnects fail (N, Err = error class)
 //	stop    stop one service (Kind); only generated as the last action
 type Action struct {
-	Op      string `json:"op"`
-	Kind    Kind   `json:"kind,omitempty"`
-	Proto   string `json:"proto,omitempty"`
-	Rows    int    `json:"rows,omitempty"`
-	Streams int    `json:"streams,omitempty"`
-	Wide    int    `json:"wide,omitempty"`
-	Big     bool   `json:"big,omitempty"`
-	Err     string `json:"err,omitempty"`  // release with an error / refuse: error class (fakech.ErrClasses); "" = plain
-	Tail    bool   `json:"tail,omitempty"` // http: the generator appended a flush / fail / flush / succeed tail for its services
-	OK      bool   `json:"ok,omitempty"`
-	N       int    `json:"n,omitempty"`
+	Op      string  `json:"op"`
+	Kind    Kind    `json:"kind,omitempty"`
+	Proto   string  `json:"proto,omitempty"`
+	Rows    int     `json:"rows,omitempty"`
+	Streams int     `json:"streams,omitempty"`
+	Wide    int     `json:"wide,omitempty"`
+	Big     bool    `json:"big,omitempty"`
+	Err     string  `json:"err,omitempty"`  // release with an error / refuse: error class (fakech.ErrClasses); "" = plain
+	Hdr     Headers `json:"hdr,omitempty"`  // http: request headers the middleware interprets
+	Tail    bool    `json:"tail,omitempty"` // http: the generator appended a flush / fail / flush / succeed tail for its services
+	OK      bool    `json:"ok,omitempty"`
+	N       int     `json:"n,omitempty"`
 }
 
 // History is one generated case of the gated driver.
@@ -55,6 +56,7 @@ func GenHistory(rt *rapid.T, o GenOpts) History {
 	h := History{}
 	h.Cfg.Workers = rapid.SampledFrom([]int{1, 1, 1, 2, 3, 4, 8}).Draw(rt, "workers")
 	DrawRetries(rt, &h.Cfg)
+	h.Cfg.AsyncNode = rapid.IntRange(0, 2).Draw(rt, "async_node") == 1
 	h.Cfg.Bernstein = rapid.Bool().Draw(rt, "bernstein")
 	useHTTP := o.HTTP && rapid.IntRange(0, 9).Draw(rt, "use_http") < 4
 	if useHTTP {
@@ -119,6 +121,7 @@ func GenHistory(rt *rapid.T, o GenOpts) History {
 			a := Action{Op: "http", Proto: rapid.SampledFrom(protos).Draw(rt, "proto")}
 			a.Rows = rapid.IntRange(1, 6).Draw(rt, "rows")
 			a.Streams = rapid.IntRange(1, 3).Draw(rt, "streams")
+			a.Hdr = DrawHeaders(rt)
 			if o.BigRows {
 				// prom: one series beyond the decoder's 1000-point flush; profile: labels beyond 1 MiB;
 				// loki / zipkin / otlp: a body that crosses the parser's 1 MiB chunk threshold and so
@@ -174,6 +177,17 @@ func GenHistory(rt *rapid.T, o GenOpts) History {
 	return h
 }
 
+// DrawHeaders draws the interpreted request headers, each absent / valid / junk.
+func DrawHeaders(rt *rapid.T) Headers {
+	return Headers{
+		Async: rapid.SampledFrom(HeaderChoices.Async).Draw(rt, "hdr_async"),
+		TTL:   rapid.SampledFrom(HeaderChoices.TTL).Draw(rt, "hdr_ttl"),
+		Meta:  rapid.SampledFrom(HeaderChoices.Meta).Draw(rt, "hdr_meta"),
+		DSN:   rapid.SampledFrom(HeaderChoices.DSN).Draw(rt, "hdr_dsn"),
+		Enc:   rapid.SampledFrom(HeaderChoices.Enc).Draw(rt, "hdr_enc"),
+	}
+}
+
 // DrawRetries draws system_settings.retry_attempts over its whole range: the usual 1..4,
 // the boundary 0 ("no retries": the unchanged doPush never calls the service, retry.Do
 // returns an empty but non-nil error list and the handler answers 500) and a very large
@@ -226,6 +240,7 @@ type Request struct {
 	Proto  string
 	Kind   Kind
 	Expect []Expect
+	Hdr    Headers
 	Direct *Submission
 
 	mu           sync.Mutex
@@ -502,7 +517,8 @@ func RunHistory(h History) *Trace {
 		case "http":
 			reqID++
 			hr, exp := BuildHTTP(a.Proto, reqID, a.Streams, a.Rows, a.Big)
-			rq := &Request{ID: reqID, Action: i, HTTP: true, Proto: a.Proto, Expect: exp}
+			ApplyHeaders(hr, a.Hdr)
+			rq := &Request{ID: reqID, Action: i, HTTP: true, Proto: a.Proto, Expect: exp, Hdr: a.Hdr}
 			tr.Reqs = append(tr.Reqs, rq)
 			httpWG.Add(1)
 			go func(hr *http.Request, rq *Request) {
